@@ -114,6 +114,8 @@ pub struct State {
     pub policy: Policy,
     pct_changes: Vec<u64>,
     pct_low: i64,
+    last_pick: usize,
+    same_pick_run: u64,
     sticky_keep: u64,
     pub steps: u64,
     pub step_cap: u64,
@@ -132,6 +134,9 @@ pub struct State {
     /// role,label pairs for which a forced switch is tried right after the point
     pub hot: Vec<&'static str>,
     pub panics: Vec<String>,
+    pub known_hits: BTreeMap<String, u64>,
+    /// event sequence number at which each task last passed each label
+    label_seq: HashMap<(usize, &'static str), u64>,
 }
 
 /// What a finished (or aborted) run leaves behind.
@@ -148,6 +153,7 @@ pub struct RunStats {
     pub f: Vec<u64>,
     pub log: Vec<String>,
     pub pending: Vec<String>,
+    pub known_hits: BTreeMap<String, u64>,
 }
 
 impl RunStats {
@@ -163,6 +169,7 @@ impl RunStats {
             s: st.s.rec.clone(),
             f: st.f.rec.clone(),
             log: st.log.clone(),
+            known_hits: st.known_hits.clone(),
             pending: st
                 .tasks
                 .iter()
@@ -319,6 +326,23 @@ impl State {
                 best
             }
         };
+        // fairness: a task that spins (e.g. a level-triggered wake-up it cannot consume yet) must
+        // not starve the task that would end the spin; after 40 consecutive picks with an
+        // alternative available it is demoted (PCT) / overridden (other policies)
+        let mut pick = pick;
+        if pick == self.last_pick {
+            self.same_pick_run += 1;
+            if self.same_pick_run >= 40 {
+                self.same_pick_run = 0;
+                self.pct_low -= 1;
+                self.tasks[pick].prio = self.pct_low;
+                let others: Vec<usize> = runnable.iter().copied().filter(|t| *t != pick).collect();
+                pick = others[(self.steps as usize) % others.len()];
+            }
+        } else {
+            self.same_pick_run = 0;
+        }
+        self.last_pick = pick;
         let role = self.tasks[pick].role;
         let lab = self.tasks[pick].label;
         fnv(&mut self.ilv_hash, role.as_bytes());
@@ -378,6 +402,8 @@ impl Shared {
             st.tasks[me].state = TState::Waiting(cond);
             st.tasks[me].label = label;
             st.ev(me, label);
+            let sq = st.seq;
+            st.label_seq.insert((me, label), sq);
             match st.pick_next(me, label) {
                 Some(n) => next = n,
                 None => {
@@ -492,6 +518,8 @@ impl Sim {
             policy: Policy::Random,
             pct_changes: Vec::new(),
             pct_low: 0,
+            last_pick: NONE,
+            same_pick_run: 0,
             sticky_keep: 8,
             steps: 0,
             step_cap: 20_000,
@@ -509,6 +537,8 @@ impl Sim {
             prop: prop.to_string(),
             hot: Vec::new(),
             panics: Vec::new(),
+            known_hits: BTreeMap::new(),
+            label_seq: HashMap::new(),
         };
         let sh = Arc::new(Shared {
             st: Mutex::new(st),
@@ -659,11 +689,34 @@ impl Sim {
     }
 }
 
+/// Signature prefixes of recorded known findings (set by the runner from known_findings.json).
+pub static KNOWN: Mutex<Vec<(String, String)>> = Mutex::new(Vec::new());
+
+/// A violation that leaves the run able to continue (no task is stuck because of it): if it is a
+/// recorded known finding it is counted and the run goes on; otherwise it is fatal.
+pub fn soft_violation(v: Violation) {
+    let sig = v.signature();
+    let known = KNOWN.lock().unwrap().iter().find(|(p, _)| sig.starts_with(p)).map(|(_, w)| w.clone());
+    let sh = ACTIVE.lock().unwrap().clone().expect("no active sim");
+    let mut st = sh.lock();
+    match known {
+        Some(what) => {
+            *st.known_hits.entry(what).or_insert(0) += 1;
+        }
+        None => fatal(v, &st, false),
+    }
+}
+
 /// Violation raised from any task (uses the active simulation).
 pub fn violation(v: Violation) -> ! {
     let sh = ACTIVE.lock().unwrap().clone().expect("no active sim");
     let st = sh.lock();
     fatal(v, &st, false)
+}
+
+/// Event sequence number at which the calling task last passed the sync point `label` (0 = never).
+pub fn my_last_seq(label: &'static str) -> u64 {
+    with_me(|sh, id| sh.lock().label_seq.get(&(id, label)).copied().unwrap_or(0)).unwrap_or(0)
 }
 
 pub fn is_task() -> bool {
